@@ -235,25 +235,21 @@ class Parser:
             self.expect("op", ")")
             self.expect("op", ";")
             return ("abort",)
-        # declaration
+        # declaration: [const] type name = expr ;
         save = self.i
         self.accept("id", "const")
-        if self.at("id") and (self.peek()[1] == "auto" or self.peek()[1] in ("unsigned", "signed", "long", "int", "char", "short")
-                              or self.peek()[1].replace("std::", "") in TYPES or self.at("id", None, 1)):
-            tname = self.peek()[1]
-            ty = self.try_type({})
-            if ty is None:
-                # possibly a local struct name: resolved by the translator
-                ty = ("named", self.next()[1])
-            if self.at("id") and self.at("op", "=", 1):
-                vname = self.next()[1]
-                self.next()
-                if self.at("op", "{"):
-                    raise Unsupported("brace initialisation (union/aggregate) of '%s' is outside the supported subset" % vname)
-                e = self.expr()
-                self.expect("op", ";")
-                return ("decl", ty, vname, e)
-            raise Unsupported("declaration starting with '%s' outside the supported subset (token %d)" % (tname, save))
+        ty = self.try_type({})
+        if ty is None and self.at("id") and self.at("id", None, 1) and self.at("op", "=", 2):
+            ty = ("named", self.next()[1])     # local struct name: resolved by the translator
+        if ty is not None and self.at("id") and self.at("op", "=", 1):
+            vname = self.next()[1]
+            self.next()
+            if self.at("op", "{"):
+                raise Unsupported("brace initialisation (union/aggregate) of '%s' is outside the supported subset" % vname)
+            e = self.expr()
+            self.expect("op", ";")
+            return ("decl", ty, vname, e)
+        self.i = save
         raise Unsupported("statement outside the supported subset at %r %r %r" % (self.peek(), self.peek(1), self.peek(2)))
 
     # -- expressions
@@ -587,8 +583,8 @@ class Translator:
     # statements ---------------------------------------------------------------
     def body(self, blk, env, structs, ret):
         """translate a block to one Lean term; returns (return type, term). ret=None: deduce (lambda)."""
-        self.ret_seen = None
-        term = self.stmts(list(blk[1]), dict(env), dict(structs), ret, holder := {"ret": ret})
+        holder = {"ret": ret}
+        term = self.stmts(list(blk[1]), dict(env), dict(structs), ret, holder)
         return holder["ret"], term
 
     def stmts(self, ss, env, structs, ret, holder):
